@@ -36,6 +36,7 @@ type workerDone struct {
 	Families  map[string]int `json:"families"`
 	Complete  bool           `json:"complete"`
 	Last      int            `json:"last"`
+	Retired   bool           `json:"retired"` // the worker stopped after case Last (poisoned process); the shard continues in a fresh one
 }
 
 const maxKeys = 4 << 20
@@ -110,6 +111,10 @@ func RunWorker(id, tier string, shard, nshards, from int, deadline time.Time, on
 		}
 		if len(done.Samples) < 3 || (done.Evaluated&(done.Evaluated-1)) == 0 && len(done.Samples) < 12 {
 			done.Samples = append(done.Samples, map[string]any{"family": cs.Family, "index": idx, "case": cs.Desc(), "outcome": res.Outcome})
+		}
+		if res.Poison {
+			stopped = true
+			done.Retired = true
 		}
 		if len(res.Violations) > 0 {
 			sig := violSig(res.Violations)
